@@ -36,11 +36,31 @@ def prep(rng):
 
 
 def plan(tier, seed):
-    return L.plan_rows(ID, FAMILY, tier, seed, 260, 12000)
+    specs = L.plan_rows(ID, FAMILY, tier, seed, 260, 12000)
+    specs += [dict(s, kind='legacy') for s in L.plan_rows(ID, FAMILY, tier, seed, 60, 3000, 4, 16)]
+    return specs
+
+
+LEGACY_CTXS = [('v6-pmsa-sec', 'off'), ('v6-pmsa', 'off'), ('v5-pmsa', 'off'), ('v4-pmsa', 'off')]
+
+
+def legacy_regs(rng):
+    # small, mostly unaligned bases and small odd offsets: the legacy (SCTLR.U = 0, A = 0) rotate / align-down paths
+    return [rng.choice([0x100, 0x1000, 0x3F8, 0x7FE0, 0x11F00, 0x11000]) + rng.randrange(8) if rng.random() < 0.6
+            else rng.choice([0, 1, 2, 3, 4, 5, 6, 7, 8, 0x101, 0x103, 0xFFFFFFFF, 0xFFFFFFFD]) for _ in range(15)]
+
+
+def legacy_after(ctx, rng, desc):
+    r = ctx.cpu.registers
+    r.sctlr.u = 0
+    r.sctlr.a = 0
+    desc['sctlr_a_u'] = (0, 0)
 
 
 def run_shard(spec):
     from vf import scen
+    if spec['kind'] == 'legacy':
+        return L.run_rows(ID, dict(spec, kind='rows'), FAMILY, ctxs=LEGACY_CTXS, regs_fn=legacy_regs, prep_kw=prep, after=legacy_after)
     return L.run_rows(ID, spec, FAMILY, ctxs=CTXS, regs_fn=lambda rng: [scen.reg_value(rng) for _ in range(15)],
                       prep_kw=prep, after=after, solve_addr=0.35)
 
